@@ -442,22 +442,50 @@ func randQuery(r *rand.Rand, ncl int, plain bool, optProb int, gs [][]string) qu
 	return q
 }
 
-// projection variants: subset and aliases
+// projection variants: subset, aliases, a binding selected twice, an alias that carries the name of another binding
 func withProjection(r *rand.Rand, q query) query {
 	body := strings.Join(q.clauses, " . ")
 	bs := bindingsOf(body)
 	if len(bs) == 0 || r.Intn(3) > 0 {
 		return q
 	}
+	all := append([]string{}, bs...)
 	r.Shuffle(len(bs), func(i, j int) { bs[i], bs[j] = bs[j], bs[i] })
 	k := 1 + r.Intn(len(bs))
 	var ps []string
-	for i, b := range bs[:k] {
-		if r.Intn(4) == 0 {
-			ps = append(ps, fmt.Sprintf("%s AS ?out%d", b, i))
-		} else {
-			ps = append(ps, b)
+	used := map[string]bool{} // output names must be pairwise different (duplicates are rejected only for empty results)
+	add := func(b, alias string) {
+		o := alias
+		if o == "" {
+			o = b
 		}
+		if used[o] {
+			return
+		}
+		used[o] = true
+		if alias == "" {
+			ps = append(ps, b)
+		} else {
+			ps = append(ps, b+" AS "+alias)
+		}
+	}
+	for i, b := range bs[:k] {
+		switch r.Intn(8) {
+		case 0, 1:
+			add(b, fmt.Sprintf("?out%d", i))
+		case 2:
+			// selected twice
+			add(b, "")
+			add(b, fmt.Sprintf("?dup%d", i))
+		case 3:
+			// the alias is the name of another binding of the pattern (which a later projection may still read)
+			add(b, pick(r, all))
+		default:
+			add(b, "")
+		}
+	}
+	if len(ps) == 0 {
+		add(bs[0], "")
 	}
 	q.proj = strings.Join(ps, ", ")
 	return q
@@ -662,6 +690,40 @@ func genC03(r *rand.Rand, n int, exhaustive bool, out func(J), next func() int) 
 		q := windowQuery(r, k)
 		out(tag(run(Spec{Graphs: roundRobin(ts, k, i%k), Query: q.text()}, false), "windows", next()))
 	}
+	// (3f) wide intermediate tables: more rows than GOMAXPROCS, every row fans out >= 3 into the next clause
+	for _, procs := range []int{1, 2, 4} {
+		for _, m := range []int{3, 4, 5} {
+			var ts []string
+			for i := 0; i < m; i++ {
+				for j := 0; j < m; j++ {
+					ts = append(ts, fmt.Sprintf("/u<n%d>\t\"p\"@[]\t/u<n%d>", i, j))
+				}
+			}
+			for _, cl := range [][]string{{`?a "p"@[] ?b`, `?b "p"@[] ?c`}, {`?a "p"@[] ?b`, `?b ?q ?c`}} {
+				q := query{clauses: cl, optional: []bool{false, false}, from: 1}
+				out(tag(run(Spec{Graphs: [][]string{ts}, Query: q.text(), Procs: procs}, false), "wide", next()))
+			}
+		}
+	}
+	// (3g) a name bound by an earlier clause reused as the AS alias / binding of a partially specified predicate or
+	// predicate-valued object (the clause is then looked up with the row's value; id, kind and interval must still hold)
+	reuse := []string{
+		"?x ?p ?y . %S %I@[?t] AS ?p ?o", "?x ?p ?y . ?s %I@[?t] AS ?p ?o", "?x ?p ?y . ?s %I@[,2016-06-01T00:00:00-08:00] AS ?p ?o",
+		"?x ?p ?y . %S %I@[2016-01-01T00:00:00Z,2017-01-01T00:00:00Z] AS ?p ?o", "?x ?p ?y . ?s %I@[,] AS ?p ?o",
+		"?x ?p2 ?y . ?s ?p3 %J@[?t] AS ?y", "?x ?p2 ?y . ?s ?p3 %J@[,] AS ?y", "?x ?p2 ?y . %S ?p3 %J@[2016-01-01T00:00:00Z,2017-01-01T00:00:00Z] AS ?y",
+		"?x ?p ?y . ?s %I@[?t] AS ?p2 ?o . ?s2 ?p2 ?o2",
+	}
+	for i := 0; i < n/16; i++ {
+		gs = graphsFor(r, 1+r.Intn(2), 10+r.Intn(12))
+		form := reuse[i%len(reuse)]
+		parts := strings.Split(resolve(r, form, anchorOf(r, gs)), " . ")
+		q := query{from: len(gs)}
+		for _, c := range parts {
+			q.clauses = append(q.clauses, c)
+			q.optional = append(q.optional, false)
+		}
+		out(tag(run(Spec{Graphs: gs, Query: q.text()}, false), "alias-reuse", next()))
+	}
 	// (4) malformed stream: statements the front end must reject
 	bad := []string{
 		"SELECT ?nope FROM ?g0 WHERE { ?s ?p ?o };",
@@ -708,6 +770,24 @@ func genC10(r *rand.Rand, n int, exhaustive bool, out func(J), next func() int) 
 		q.from = len(gs)
 		q = withProjection(r, q)
 		out(tag(run(Spec{Graphs: gs, Query: q.text()}, false), "optional", next()))
+	}
+	// disjoint OPTIONAL clauses with several matches whose bindings are NOT projected: a disjoint optional clause multiplies
+	// the rows by its matches (left outer join without join condition), which only the multiplicities show
+	for i := 0; i < n/8; i++ {
+		gs := graphsFor(r, 1+r.Intn(2), 8+r.Intn(10))
+		a, b := anchorOf(r, gs), anchorOf(r, gs)
+		if a == nil || b == nil {
+			continue
+		}
+		first := []string{"?s " + a.p + " ?o", a.s + " ?p ?o", "?s ?p " + a.o}[i%3]
+		opt := []string{"?x " + b.p + " ?y", "?x ?q " + b.o, b.s + " ?q ?y"}[(i/3)%3]
+		q := query{clauses: []string{first, opt}, optional: []bool{false, true}, from: len(gs)}
+		if i%4 == 3 {
+			q.clauses = append(q.clauses, "?o ?p2 ?z")
+			q.optional = append(q.optional, i%8 == 3)
+		}
+		q.proj = strings.Join(bindingsOf(first), ", ")
+		out(tag(run(Spec{Graphs: gs, Query: q.text()}, false), "optional-unprojected", next()))
 	}
 	if exhaustive {
 		// all pairs (plain first clause form, plain second clause form) with the second optional, names from a pool of 3
@@ -804,6 +884,16 @@ func genC14(r *rand.Rand, n int, out func(J), next func() int) {
 			ts = cycleData(r)
 			q = cycleQuery(r, 1)
 			ncl = len(q.clauses)
+		case gi%8 == 2:
+			// wide: a complete digraph, so that the intermediate table exceeds GOMAXPROCS and every row fans out
+			m := 4 + gi%2
+			for i := 0; i < m; i++ {
+				for j := 0; j < m; j++ {
+					ts = append(ts, fmt.Sprintf("/u<n%d>\t\"p\"@[]\t/u<n%d>", i, j))
+				}
+			}
+			q = query{clauses: []string{`?a "p"@[] ?b`, `?b "p"@[] ?c`}, optional: []bool{false, false}}
+			ncl = 2
 		case gi%8 == 5:
 			ts = windowData()
 			r.Shuffle(len(ts), func(a, b int) { ts[a], ts[b] = ts[b], ts[a] })
